@@ -145,7 +145,11 @@ def _hs_den(ma: dict) -> dict:
             t = r["offset"]
             # the sample banks and volumes the notes of one time carry, as a multiset (which note of a chord carries which
             # sound is the library's business; what sounds at that time is not)
-            banks.append((("t", t), ("bank", (r.get("sample_set", NAN), r.get("addition_set", NAN), r.get("custom_set", NAN))), ("volume", r.get("volume", NAN))))
+            hs_ = int(r["hitsound_set"]) if r["hitsound_set"] is not NAN else 0
+            if hs_ & 14 or r.get("hitsound_file"):
+                # only notes that carry a copied sound: which note of a chord receives it is the library's business, and the
+                # notes that receive none keep whatever bank and volume they had
+                banks.append((("t", t), ("bank", (r.get("sample_set", NAN), r.get("addition_set", NAN), r.get("custom_set", NAN))), ("volume", r.get("volume", NAN))))
             hs = int(r["hitsound_set"]) if r["hitsound_set"] is not NAN else 0
             c = per_time.setdefault(t, [0, 0, 0])
             c[0] += 1 if hs & 2 else 0
